@@ -107,6 +107,7 @@ pub fn whole_files() -> Vec<(&'static str, String)> {
     let v: Vec<(&'static str, &str)> = vec![
         ("plural-empty-base", r#"{"_one": "a", "_other": "b"}"#),
         ("ordinal-plural-empty-base", r#"{"_ordinal_one": "a", "_ordinal_other": "b"}"#),
+        ("cardinal-and-ordinal-form-without-base", r#"{"_one": "a", "_ordinal_one": "b"}"#),
         ("plural-empty-base-in-group", r#"{"g": {"_one": "a", "_other": "b"}, "z": "z"}"#),
         ("plural-base-not-an-identifier", r#"{"1_one": "a", "1_other": "b"}"#),
         ("plural-base-with-dash", r#"{"a-b_one": "a", "a-b_other": "b {{ count }}"}"#),
